@@ -74,6 +74,30 @@ check('C17', 'exploration',
       "Fault-to-code table transcribed from the Engine.IO v4 protocol; one-mutex callback recorder; VerifSessionCount (store size); porcupine v1.3.0.",
       "exhaustive request matrix with table oracle + state-invariance monitors; seeded Close races with counting/porcupine oracle", "DESIGN.md §3 C17")
 
+check('C04', 'exploration',
+      "Exhaustive over all 512x8x8 (membership matrix, T, E) cells of 3 sockets x 3 rooms at adapter level, each through Adapter.Broadcast, operator chains, reused parent operators and "
+      "socket-issued broadcasts; seeded random histories (3000/60000, <= 40 ops, 4x4, disconnect and fresh-id reconnect) in lock-step with a set-comprehension model with the index invariant, "
+      "index snapshot and all queries checked after every step; concurrent rounds judged by interval semantics plus porcupine linearizability of membership ops per socket id; real-server "
+      "fence-based end-to-end runs with recovery off and on; a Join-vs-Disconnect stress. Thorough re-runs the concurrent parts under the race detector.",
+      "Harness fake socket at adapter level (the real serverSocket is covered end to end); Go map-iteration guarantee that an entry present throughout is produced exactly once; per-connection FIFO for the fence argument; porcupine v1.3.0.",
+      "executable reference model in lock-step (exhaustive small scope + generated histories with shrinking); interval-semantics and porcupine checks over recorded histories; wire-fence absence verdicts", "DESIGN.md §3 C04")
+
+check('C06', 'fault_enumeration',
+      "Cause x phase trials (10 termination causes x {before CONNECT, inside a parked namespace middleware, connected idle, mid-burst c->s, mid-burst s->c, during the polling->websocket "
+      "upgrade, two namespaces} x transport) driven by a raw protocol peer through a byte-accurate TCP fault proxy; scripted sessions cut at every k-th byte (k=1 on websocket in thorough) in "
+      "each direction; several causes fired at once. Monitors: per-socket counters on connection/disconnecting/disconnect handler entry with the reported reason, and a quiescent-point "
+      "sweep over Namespace.Sockets, the adapter index (invariant + snapshot hook), the Engine.IO session-count hook and an HTTP probe with the old sid.",
+      "Quiescence = sweep stable and clean under a watchdog of pingInterval+pingTimeout+15 s; allowed reason sets per cause are the monitor's reading of 'a reason naming the cause'.",
+      "fault injection (proxy cuts/black-holes, parked middleware) + handler-entry counters + quiescent-state sweep through invariant hooks", "DESIGN.md §3 C06")
+
+check('C11', 'exploration',
+      "Differential monitor on the real engine.io/parser and WebTransport framer: single packets over type x text/binary x raw/base64 x writer kind x payload classes x sizes, payloads of 0..8 packets, "
+      "WebTransport frames of every encoded length 0..70000 (thorough: exhaustive; quick: 0..300, boundaries and a stride) read back through the server-side limitedReader path and the client path, "
+      "whole and chunked; real bytes vs an independent v4 reference codec both ways; EncodedLen/EncodedPayloadsLen/length prefix vs bytes really written; limits {16,4096,1e6,0}; random and mutated "
+      "byte strings through every decoder under recover(); child process (GOGC=off, RLIMIT_AS) measuring the TotalAlloc delta of one read for headers announcing up to 2^64-1 bytes.",
+      "Reference codec written from the Engine.IO v4 text; TotalAlloc on a single goroutine as allocation measure with an honest-frame control; only the framer on io.Reader/io.Writer is exercised, not QUIC.",
+      "differential testing vs independent reference codec; exhaustive length enumeration; fuzzing under recover(); child-process allocation monitor", "DESIGN.md §3 C11")
+
 for pid in ['C01','C02','C03','C04','C05','C06','C07','C08','C10','C11','C12','C13','C14','C15','C16','C17','C18','C19']:
     if pid not in P:
         na(pid, "check not built yet in this round (planned, see DESIGN.md §3); not claimed until its monitor runs clean on the unchanged tree")
